@@ -20,7 +20,8 @@ RULE = ("histories of next/take/peek/skip/limit/copy/append/map/filter/thub/Stre
         "limit(str), tee(x, -1)) must raise the stated exception and change nothing. Argument kinds: filter predicate None / bool / lambda / bound method / "
         "predicates returning non-bool values over items that include zeros; thub / tee of non-iterables of every kind "
         "(numbers, None, functions, class objects such as list / dict / Stream that merely HAVE __iter__, an instance with "
-        "__iter__ only as an instance attribute) must return that very object. Families: argkinds, long (runs of hundreds "
+        "__iter__ only as an instance attribute) must return that very object. Families: mutcons (exhaustive, every seed: in-place method - k items "
+        "consumed directly in every style - in-place method, observed only at the end), argkinds, long (runs of hundreds "
         "of items, copies far apart), reuse (one stream: "
         "in-place methods before and after it ran into its end), refused (hub with n uses, "
         "refused and multi-argument calls interleaved with uses, then all uses requested), alias (every source kind x take/peek x constructor x "
@@ -652,7 +653,31 @@ def gen_long(tier, rng):
                             ["take", 2, ["int", 3]]], ["long"])
 
 
+def gen_mutcons(tier, rng):
+  """ONE stream object: an in-place method, then k items consumed DIRECTLY (every consumption style, nothing else
+  in between, no intermediate observation), then an in-place method again; observed only at the end.  Exhaustive
+  and the same for every seed."""
+  muts = [["limit", 0, ["int", a]] for a in range(5)] + [["skip", 0, ["int", a]] for a in range(5)]
+  muts += [["append", 0, ["fin", [7, 8]]], ["map", 0, ["add", 10]], ["filter", 0, ["gt", 1]], ["copy", 0]]
+  cons = [[["take", 0, ["int", k]]] for k in (1, 2, 3, 4)]
+  cons += [[["take", 0, ["none"]]], [["next", 0]], [["next", 0], ["next", 0]], [["take", 0, ["int", 2], "tuple"]],
+           [["take", 0, ["none"]], ["take", 0, ["int", 1], "deque"]]]
+  for pool in (["fin", [1, 2, 3, 4, 5, 6, 7, 8], "list"], ["cyc", [1, 2, 3], "args"]):
+    for m1 in muts:
+      for c in cons:
+        for m2 in muts:
+          ops = [list(m1)] + [list(o) for o in c] + [list(m2)]
+          kinds = [("s",)]
+          for op in ops:
+            kinds = advance(op, kinds)
+          ops.append(["take", 0, ["int", 9]])
+          ops += [["take", i, ["int", 9]] for i in range(1, len(kinds))]
+          yield finish([pool], ops, ["mutcons", m1[0], m2[0]])
+
+
 def gen_hist(tier, rng):
+  for c in gen_mutcons(tier, rng):
+    yield c
   for c in gen_argkinds(tier, rng):
     yield c
   for c in gen_long(tier, rng):
